@@ -1,6 +1,8 @@
 (* C11 -- line numbers in parse trees and errors are the true source lines. *)
 From Coq Require Import NArith List Bool String.
 From MP Require Import Model.Lexer Gen.GenGrammar Model.Parser Proofs.LexProofs Proofs.ParserProofs Model.Loader Props.C12.
+From MP Require Import Model.ParserObj Proofs.ParserObjProofs Gen.GenFacts Corr.CheckParserObj.
+From MP Require Import Model.Cli Proofs.CliProofs.
 Import ListNotations.
 Open Scope N_scope.
 
@@ -23,11 +25,29 @@ Theorem C11_argument_lines : forall fs n k e t,
   eval fs (Br F_p_argument [Leaf n; k; e]) = SOk t -> match t with SArg a => pa_line a = t_line n | _ => False end.
 Proof. intros fs n k e t H. cbn [eval] in H. destruct (eval fs e) as [[]| |]; simpl in H; try discriminate; inversion H; reflexivity. Qed.
 
-(* independence of history: the outcome of parsing is a function of the text alone (the model has no parser state; that
-   the code resets its line counter and its EEMS 2.0 flag for every parse is what the correspondence observes by
-   re-using one Parser object for the whole stream) *)
-Theorem C11_history_free : forall fs (history : list text) s, parse fs s = parse fs s.
+(* independence of history.  A Parser object keeps three things between two calls of parse(): the lexer's running line
+   counter, the EEMS 2.0 flag and the list of pending action errors (Model/ParserObj.v).  REGENERATED OBLIGATION: parse()
+   re-initialises all three before yacc runs (read off the source on every run). *)
+Theorem C11_parser_resets : parser_resets = (true, true, true).
 Proof. reflexivity. Qed.
+(* Hence, for EVERY state the object may be in -- whatever it parsed before, successfully or not -- parse() delivers exactly
+   what a fresh parser delivers for the text, lines included, and leaves the object in a state that depends on that text alone. *)
+Theorem C11_history_free : forall fs (o : pobj) s, fst (parse_obj gen_resets fs o s) = parse fs s.
+Proof. exact parse_obj_reset. Qed.
+Theorem C11_state_after_parse : forall fs (o o' : pobj) s, snd (parse_obj gen_resets fs o s) = snd (parse_obj gen_resets fs o' s).
+Proof. exact parse_obj_state. Qed.
+(* Each of the three resets is needed: drop one and there is a reachable state of the object (after `A = B()` + line feed; after
+   the EEMS 2.0 text `B()`; with an error pending) from which `A = B()` is delivered with another line / version / not at all.
+   (The dynamic side: the driver re-uses one Parser object for its whole stream, observes the object's state before and after
+   every parse and checks each step against parse_obj -- Corr/CheckParserObj.v.) *)
+Theorem C11_each_reset_is_needed :
+  (let R := {| rs_lineno := false; rs_v2 := true; rs_errors := true |} in
+   fst (parse_obj R (fun _ => None) (after R t_cmd_nl) t_cmd) <> parse (fun _ => None) t_cmd) /\
+  (let R := {| rs_lineno := true; rs_v2 := false; rs_errors := true |} in
+   fst (parse_obj R (fun _ => None) (after R t_v2) t_cmd) <> parse (fun _ => None) t_cmd) /\
+  (let R := {| rs_lineno := true; rs_v2 := true; rs_errors := false |} in
+   fst (parse_obj R (fun _ => None) {| po_lineno := 1; po_v2 := false; po_pending := true |} t_cmd) <> parse (fun _ => None) t_cmd).
+Proof. exact (conj lineno_reset_needed (conj v2_reset_needed errors_reset_needed)). Qed.
 
 (* errors: every load-time and validation error carries the line of the offending command or argument node *)
 Theorem C11_error_lines : forall sigs wdir ex nodes e, accept sigs wdir ex nodes = Some e ->
@@ -43,7 +63,33 @@ Proof. intros sigs wdir ex nodes e H. pose proof (C12_blame sigs wdir ex nodes e
   - destruct B as (n & s & a & p & A & _ & Ia & L & _). eauto.
 Qed.
 
+(* the command-line tool (Model/Cli.v: mpilot/cli/mpilot.py reads the file in text mode, strips the line ends, joins the lines with
+   LF for the parser, and prints lines[lineno-4 .. lineno+1] around an error with `-->` before lines[lineno-1]).  For EVERY command
+   file -- LF, CRLF or CR line ends, with or without a final line break, any characters -- and every token of the source the
+   parser is given: the context display for the token's line exists (no IndexError), and the marked line is the line of the file
+   in which the token starts: the source before the token is exactly the lines before the marked one, complete, plus a prefix of
+   the marked line.  With C11_error_lines (errors carry the line of a node) and C11_node_lines (nodes carry the line of their
+   first token) the line the tool marks for a load-time or validation error is the line on which the offending command or
+   argument starts. *)
+Theorem C11_cli_marks_the_token_line : forall file toks, lex_all (source_of_file file) = LexOk toks ->
+  Forall (fun t => exists before marked after pre post,
+            context (lines_of_file file) (N.to_nat (t_line t)) = Some (before, marked, after) /\ marked = (pre ++ post)%list /\
+            firstn (t_pos t) (source_of_file file) = join_lf (firstn (N.to_nat (t_line t) - 1) (lines_of_file file) ++ [pre])%list) toks.
+Proof. exact cli_marks_the_token_line. Qed.
+(* "A = B(\r\n\r\n  x = 1)\r\n": three lines; the argument is on line 3 and that is the line marked, with the two lines before it shown *)
+Example C11_cli_example :
+  let file := [65; 32; 61; 32; 66; 40; 13; 10; 13; 10; 32; 32; 120; 32; 61; 32; 49; 41; 13; 10] in
+  lines_of_file file = [[65; 32; 61; 32; 66; 40]; []; [32; 32; 120; 32; 61; 32; 49; 41]] /\
+  context (lines_of_file file) 3 = Some ([[65; 32; 61; 32; 66; 40]; []], [32; 32; 120; 32; 61; 32; 49; 41], []) /\
+  context (lines_of_file file) 4 = None.
+Proof. vm_compute. repeat split; reflexivity. Qed.
+
 Print Assumptions C11_token_lines.
 Print Assumptions C11_node_lines.
 Print Assumptions C11_argument_lines.
 Print Assumptions C11_error_lines.
+Print Assumptions C11_parser_resets.
+Print Assumptions C11_history_free.
+Print Assumptions C11_state_after_parse.
+Print Assumptions C11_each_reset_is_needed.
+Print Assumptions C11_cli_marks_the_token_line.
